@@ -207,7 +207,7 @@ fn decode_mutation(c: &mut Cur) -> c01::Mutation {
         12 => HeaderRemove(c.u16()),
         13 => HeaderSwapValues(c.u16()),
         14 => BodyFlip(c.u16()),
-        15 => BodyAppend(c.u8()),
+        15 => if c.bool() { BodyAppend(c.u8()) } else { BodyPrefix(c.u8()) },
         16 => BodyTruncate(c.u16()),
         17 => Timestamp((c.u8() as i8).max(-120).min(120)),
         18 => Credential(c.u8() % 5, c.u16()),
@@ -408,7 +408,7 @@ pub fn one(data: &[u8]) {
             };
             plan.cfg.now = plan.instant.add_nanos(-delta);
             if (1..=9999).contains(&plan.cfg.now.year()) {
-                let case = c04::WindowCase { plan, delta };
+                let case = c04::WindowCase { plan, delta, provider_ready: (c.u8() % 4, if c.bool() { Some(c.u8() % 14) } else { None }) };
                 let r = c04::check_window(&case, &mut cc);
                 settle(st, "random", &case, r);
             }
